@@ -109,6 +109,38 @@ def _gen_specs(ctx, nl, salt, allow=('plane', 'standard', 'conic', 'even_asphere
     return out
 
 
+INF = float('inf')
+# fixed lenses added to every sweep: reflecting systems are rare in the random generator
+CORPUS = [
+    # concave spherical mirror, object at infinity
+    {'object_thickness': INF,
+     'surfaces': [{'type': 'standard', 'radius': -200.0, 'thickness': -95.0, 'is_stop': True, 'material': 'mirror'}],
+     'aperture': ['EPD', 20.0], 'field_type': 'angle', 'fields': [[0.0, 0.0, 0.0, 0.0], [2.0, 0.0, 0.0, 0.0]],
+     'wavelengths': [[0.55, True]], 'telecentric': False},
+    # singlet followed by a flat fold mirror
+    {'object_thickness': INF,
+     'surfaces': [{'type': 'standard', 'radius': 80.0, 'thickness': 6.0, 'is_stop': True, 'material': ['ideal', 1.6, 0.0]},
+                  {'type': 'standard', 'radius': -120.0, 'thickness': 30.0, 'material': 'air'},
+                  {'type': 'standard', 'radius': INF, 'thickness': -50.0, 'material': 'mirror'}],
+     'aperture': ['EPD', 10.0], 'field_type': 'angle', 'fields': [[0.0, 0.0, 0.0, 0.0], [3.0, 0.0, 0.0, 0.0]],
+     'wavelengths': [[0.55, True]], 'telecentric': False},
+    # two-mirror (Cassegrain-like) system: concave conic primary, convex secondary
+    {'object_thickness': INF,
+     'surfaces': [{'type': 'standard', 'radius': -400.0, 'conic': -1.05, 'thickness': -140.0, 'is_stop': True,
+                   'material': 'mirror'},
+                  {'type': 'standard', 'radius': -150.0, 'conic': -2.2, 'thickness': 190.0, 'material': 'mirror'}],
+     'aperture': ['EPD', 40.0], 'field_type': 'angle', 'fields': [[0.0, 0.0, 0.0, 0.0], [0.5, 0.0, 0.0, 0.0]],
+     'wavelengths': [[0.55, True]], 'telecentric': False},
+    # finite object, object-height field, flat mirror in front of a lens
+    {'object_thickness': 150.0,
+     'surfaces': [{'type': 'standard', 'radius': INF, 'thickness': -40.0, 'material': 'mirror'},
+                  {'type': 'standard', 'radius': -70.0, 'thickness': -5.0, 'is_stop': True, 'material': ['ideal', 1.5, 0.0]},
+                  {'type': 'standard', 'radius': 90.0, 'thickness': -120.0, 'material': 'air'}],
+     'aperture': ['EPD', 8.0], 'field_type': 'object_height', 'fields': [[0.0, 0.0, 0.0, 0.0], [5.0, 0.0, 0.0, 0.0]],
+     'wavelengths': [[0.55, True]], 'telecentric': False},
+]
+
+
 def _real(o, Hy, Py, w):
     import numpy as np
     o.trace_generic(np.array([0.0]), np.array([float(Hy)]), np.array([0.0]), np.array([float(Py)]), w)
@@ -135,12 +167,13 @@ def _order_ok(es, errs, ref):
     small = [(e, v) for e, v in pts if e <= 1e-2]
     if not small:
         return True, None, 'no small eps'
-    # the limit itself: the smallest eps must be at the noise floor or well below the largest one
-    e_min, v_min = min(pts)
-    if v_min > max(floor, 1e-5 * (1 + abs(ref))):
-        return False, 0.0, f'error {v_min:.3e} at eps={e_min:g} does not vanish'
-    above = [(e, v) for e, v in pts if v > floor]
+    above = [(e, v) for e, v in pts if v > 5 * floor]      # points used for the fit: noise below 20 %
     if len(above) < 3:
+        # (nearly) everything at the noise floor; two stray points must at least decrease with eps
+        if len(above) == 2 and above[0][0] != above[1][0]:
+            (e1, v1), (e2, v2) = sorted(above)
+            if v1 > v2:
+                return False, 0.0, f'error grows as eps shrinks ({v2:.3e} -> {v1:.3e})'
         return True, None, 'at noise floor'
     # the property is about eps -> 0: the order is fitted on the asymptotic tail (the four smallest eps whose
     # error is above the noise floor).  A nearly afocal lens (paraxial focus at 5e4) has a relative error of
@@ -150,7 +183,8 @@ def _order_ok(es, errs, ref):
     order = _slope([e for e, _ in tail], [v for _, v in tail])
     if order < ORDER_MIN and len(above) > 4:
         order = max(order, _slope([e for e, _ in above], [v for _, v in above]))
-    return (order >= ORDER_MIN), order, ''
+    det = '' if order >= ORDER_MIN else f'error {tail[0][1]:.3e} at eps={tail[0][0]:g}, fitted order {order:.2f}'
+    return (order >= ORDER_MIN), order, det
 
 
 def convergence_oracle(o, spec):
@@ -215,6 +249,23 @@ def convergence_oracle(o, spec):
             ok, order, det = _order_ok(es, errs, ref)
             if not ok:
                 out.append({'clause': 'axial-focus', 'order': order, 'detail': det, 'paraxial_focus': ref, 'errors': errs})
+    # Paraxial.F2(): back focal point, measured from the image surface; object at infinity: the real axial bundle
+    # must cross the axis there in the limit
+    if not math.isfinite(spec['object_thickness']):
+        try:
+            F2 = float(P.F2())
+        except Exception:   # noqa
+            F2 = float('nan')
+        if math.isfinite(F2):
+            es, errs = [], []
+            for e in EPS:
+                y, z, M, N, x, L = _real(o, 0.0, e, w)
+                if len(y) == nS and math.isfinite(y[-1]) and M[-1] != 0:
+                    es.append(e)
+                    errs.append(abs(-y[-1] / (M[-1] / N[-1]) - F2))
+            ok, order, det = _order_ok(es, errs, F2)
+            if not ok:
+                out.append({'clause': 'axial-focus-F2', 'order': order, 'detail': det, 'paraxial_F2': F2, 'errors': errs})
     # Paraxial.trace(Hy, Py) is the paraxial counterpart of trace_generic(Hy, Py)
     for (Hy, Py) in ((0.0, 1.0), (1.0, 0.0), (0.7, -0.6)):
         if Hy and mf == 0:
@@ -359,7 +410,7 @@ def _oracle_sweep(ctx, nl, salt):
     viol = []
     nontrivial = 0
     seen = set()
-    for spec in _gen_specs(ctx, nl, salt):
+    for spec in CORPUS + _gen_specs(ctx, nl, salt):
         try:
             o = lensgen.build(spec)
         except Exception:   # noqa
@@ -447,48 +498,45 @@ def _has_r2_asphere(spec):
                for s in spec['surfaces'])
 
 
-def _clause_known(b, spec):
-    """which listed finding (id) explains one oracle complaint, or None"""
+def _clause_candidates(b, spec):
+    """ids of the findings (open or repaired) that would explain one oracle complaint"""
     cl = b['clause']
     finite = math.isfinite(spec['object_thickness'])
-    if cl == 'paraxial-trace':
-        if finite and spec['field_type'] == 'angle' and 'H_P' in b:
-            return 'paraxial-trace-finite-angle'
+    out = []
+    if cl == 'paraxial-trace' and 'H_P' in b:
+        if finite and spec['field_type'] == 'angle':
+            out.append('paraxial-trace-finite-angle')
+        if spec['field_type'] == 'object_height' and b['H_P'][0] != 0:
+            out.append('object-height-sign')     # Paraxial.trace used -field_y like chief_ray
     if spec['field_type'] == 'object_height' and cl in ('chief-y', 'chief-u'):
         r = b.get('ratio_real_over_paraxial')
         if r is not None and abs(r + 1) < 1e-3:
-            return 'object-height-sign'
-    if _has_r2_asphere(spec) and cl in ('marginal-y', 'marginal-u', 'chief-y', 'chief-u', 'axial-focus',
+            out.append('object-height-sign')
+    if _has_r2_asphere(spec) and cl in ('marginal-y', 'marginal-u', 'chief-y', 'chief-u', 'axial-focus', 'axial-focus-F2',
                                         'chief-stop-centre', 'paraxial-trace'):
         # only surfaces at or behind the first such asphere can be affected
         first = min(i for i, s in enumerate(spec['surfaces'])
                     if s.get('type') == 'even_asphere' and s.get('coefficients') and s['coefficients'][0] != 0) + 1
         if b.get('surface', first) >= first:
-            return 'even-asphere-r2-ignored'
-    return None
+            out.append('even-asphere-r2-ignored')
+    return out
 
 
 def matches_finding(w, f):
-    """a witness is a listed finding only if EVERY complaint of the oracle is explained by listed findings and
-    at least one by this one"""
+    """a witness is a listed finding only if EVERY complaint of the oracle is explained by a finding that is
+    still OPEN (a repaired defect that comes back alarms) and at least one complaint by this one"""
     spec = w.get('spec')
     orc = w.get('oracle') or []
     if not spec or not orc:
         return False
-    ids = []
+    open_ids = _open_ids()
+    mine = False
     for b in orc:
-        if b['clause'] == 'paraxial-trace' and spec['field_type'] == 'object_height' and b.get('H_P', [0, 0])[0] != 0:
-            ids.append('object-height-sign-or-ok')     # Paraxial.trace uses -field_y like chief_ray: same finding
-            continue
-        i = _clause_known(b, spec)
-        if i is None:
+        cands = [i for i in _clause_candidates(b, spec) if i in open_ids]
+        if not cands:
             return False
-        ids.append(i)
-    ids = ['object-height-sign' if i == 'object-height-sign-or-ok' else i for i in ids]
-    # every complaint must be explained by a finding that is still OPEN (a repaired defect that comes back alarms)
-    if any(i not in _open_ids() for i in ids):
-        return False
-    return f['id'] in ids
+        mine = mine or f['id'] in cands
+    return mine
 
 
 ASPH_REPLAY = {
